@@ -226,6 +226,7 @@ impl Renderer {
             "bin" | "asg" => format!("({} {} {})", self.pexpr(&e["l"]), e["op"].as_str().unwrap(), self.pexpr(&e["r"])),
             "and" => format!("({} && {})", self.pexpr(&e["l"]), self.pexpr(&e["r"])),
             "or" => format!("({} || {})", self.pexpr(&e["l"]), self.pexpr(&e["r"])),
+            "mut" if e.get("u").is_some() => format!("(mut {})", self.pexpr(&e["e"])),
             "mut" => format!("(mut {} {})", type_text(&e["ty"], 0), self.pexpr(&e["e"])),
             "fn" => format!(
                 "({}) -> {} {{\n{}}}",
